@@ -11,44 +11,55 @@
 (* zero-sized-with-destructor ("zst") or plain data without any drop glue    *)
 (* ("pod": its end of life is not observable as a destructor run, but the    *)
 (* block that held it must still be given back exactly once).                *)
+(*                                                                          *)
+(* A CBox is a published two-word layout {instance, drop function}: foreign  *)
+(* code may fill one in itself.  own = "foreign": the box owns the value and *)
+(* its drop function is the maker's - dropping the box (typed or opaque)     *)
+(* hands exactly that instance to exactly that function, once.  own =        *)
+(* "loan": no drop function - the value stays the environment's; dropping    *)
+(* the box destroys nothing (`kept`), writing through it still replaces the  *)
+(* value in place.  into_inner is for boxes made by Rust's Box only.         *)
 (***************************************************************************)
 EXTENDS Naturals, Sequences, FiniteSets
 
 CONSTANTS Slot, MaxId
 Id == 1..MaxId
 
-VARIABLES bx,      \* [Slot -> [kind, form, pk, ids]]  kind: free|cbox|sbox|obj  form: typed|opaque
+VARIABLES bx,      \* [Slot -> [kind, form, pk, ids, own]]  kind: free|cbox|sbox|obj  form: typed|opaque  own: rust|foreign|loan
           drops,   \* [Id -> Nat]
-          nextId
+          nextId,
+          kept     \* payloads the environment still holds after the box it had lent them through is gone
 
-vars == <<bx, drops, nextId>>
-Free == [kind |-> "free", form |-> "typed", pk |-> "heavy", ids |-> <<>>]
+vars == <<bx, drops, nextId, kept>>
+Free == [kind |-> "free", form |-> "typed", pk |-> "heavy", ids |-> <<>>, own |-> "rust"]
 Range(s) == {s[k] : k \in DOMAIN s}
 Bump(f, S) == [i \in DOMAIN f |-> IF i \in S THEN f[i] + 1 ELSE f[i]]
 
-Init == bx = [s \in Slot |-> Free] /\ drops = [i \in Id |-> 0] /\ nextId = 1
+Init == bx = [s \in Slot |-> Free] /\ drops = [i \in Id |-> 0] /\ nextId = 1 /\ kept = {}
 
 (* CBox::from(T) / from(Box<T>) / from((T, NoContext)) (boxed.rs:44-67); a typed object from a value *)
 New(s, kind, pk, n, via) ==
   /\ bx[s].kind = "free" /\ kind \in {"cbox", "sbox", "obj"} /\ pk \in {"heavy", "zst", "pod"}
   /\ (kind # "sbox" => n = 1) /\ nextId + n - 1 <= MaxId
-  /\ bx' = [bx EXCEPT ![s] = [kind |-> kind, form |-> "typed", pk |-> pk, ids |-> [k \in 1..n |-> nextId + k - 1]]]
+  /\ (via \in {"foreign", "loan"} => kind = "cbox" /\ pk # "zst")
+  /\ bx' = [bx EXCEPT ![s] = [kind |-> kind, form |-> "typed", pk |-> pk, ids |-> [k \in 1..n |-> nextId + k - 1],
+                              own |-> IF via \in {"foreign", "loan"} THEN via ELSE "rust"]]
   /\ nextId' = nextId + n
-  /\ UNCHANGED drops
+  /\ UNCHANGED <<drops, kept>>
 
 (* into_opaque: a bit move, nothing is dropped or copied *)
 IntoOpaque(s) ==
   /\ bx[s].kind # "free" /\ bx[s].form = "typed"
   /\ bx' = [bx EXCEPT ![s].form = "opaque"]
-  /\ UNCHANGED <<drops, nextId>>
+  /\ UNCHANGED <<drops, nextId, kept>>
 
 (* IntoInner::into_inner on a typed CBox (boxed.rs:20-28): the value is moved out (the caller drops it), *)
 (* the allocation is freed, the box's own destructor must not run any more                               *)
 IntoInner(s) ==
-  /\ bx[s].kind = "cbox" /\ bx[s].form = "typed"
+  /\ bx[s].kind = "cbox" /\ bx[s].form = "typed" /\ bx[s].own = "rust"
   /\ drops' = Bump(drops, Range(bx[s].ids))
   /\ bx' = [bx EXCEPT ![s] = Free]
-  /\ UNCHANGED nextId
+  /\ UNCHANGED <<nextId, kept>>
 
 (* assignment through DerefMut: the old value dies, the new one is owned *)
 Write(s, k) ==
@@ -56,13 +67,23 @@ Write(s, k) ==
   /\ drops' = Bump(drops, {bx[s].ids[k]})
   /\ bx' = [bx EXCEPT ![s].ids[k] = nextId]
   /\ nextId' = nextId + 1
+  /\ UNCHANGED kept
 
 (* Drop in whatever form the value currently has *)
 DropBox(s) ==
   /\ bx[s].kind # "free"
-  /\ drops' = Bump(drops, Range(bx[s].ids))
+  /\ IF bx[s].own = "loan"
+       THEN kept' = kept \cup Range(bx[s].ids) /\ UNCHANGED drops
+       ELSE drops' = Bump(drops, Range(bx[s].ids)) /\ UNCHANGED kept
   /\ bx' = [bx EXCEPT ![s] = Free]
   /\ UNCHANGED nextId
+
+(* the environment destroys what it had lent out (only after the boxes are gone) *)
+EnvRelease ==
+  /\ kept # {}
+  /\ drops' = Bump(drops, kept)
+  /\ kept' = {}
+  /\ UNCHANGED <<bx, nextId>>
 
 Do(e) ==
   \/ e.op = "New"        /\ New(e.s, e.kind, e.pk, e.n, e.via)
@@ -70,11 +91,13 @@ Do(e) ==
   \/ e.op = "IntoInner"  /\ IntoInner(e.s)
   \/ e.op = "Write"      /\ Write(e.s, e.k)
   \/ e.op = "Drop"       /\ DropBox(e.s)
+  \/ e.op = "EnvRelease" /\ EnvRelease
 
-Proj == [ slots |-> [s \in Slot |-> <<bx[s].kind, bx[s].form, bx[s].pk, bx[s].ids>>],
-          drops |-> [i \in 1..(nextId - 1) |-> drops[i]] ]
+Proj == [ slots |-> [s \in Slot |-> <<bx[s].kind, bx[s].form, bx[s].pk, bx[s].ids, bx[s].own>>],
+          drops |-> [i \in 1..(nextId - 1) |-> drops[i]],
+          kept  |-> [i \in 1..(nextId - 1) |-> i \in kept] ]
 
 DropAtMostOnce == \A i \in Id : drops[i] <= 1
-Owned == UNION {Range(bx[s].ids) : s \in Slot}
+Owned == UNION {Range(bx[s].ids) : s \in Slot} \cup kept
 ExactlyOnce == \A i \in 1..(nextId - 1) : IF i \in Owned THEN drops[i] = 0 ELSE drops[i] = 1
 =============================================================================
